@@ -53,7 +53,11 @@ func checkC16(c CaseC16) error {
 	if err != nil {
 		return vt.Failf("ParseRealtime rejected a well-formed message: %v", err)
 	}
-	got := rgen.Normalize(r)
+	return compareC16(rgen.Normalize(r), c)
+}
+
+// compareC16 checks a parsed result against the reference model of the NYCT trips extension.
+func compareC16(got rgen.NRealtime, c CaseC16) error {
 	model, _ := rgen.ApplyNyctTrips(c.Msg, c.Opts)
 	want := rgen.Expect(model, c.Zone, rgen.ExpectOpts{Track: rgen.NyctTrack})
 	if err := rgen.Compare(got, want); err != nil {
